@@ -2,6 +2,7 @@ package main
 
 import (
 	"bufio"
+	"context"
 	"encoding/hex"
 	"fmt"
 	"os"
@@ -27,10 +28,10 @@ func (r *RNG) Intn(n int) int {
 	}
 	return int(r.Next() % uint64(n))
 }
-func (r *RNG) Bool() bool          { return r.Next()&1 == 1 }
-func (r *RNG) Chance(p int) bool   { return r.Intn(100) < p }
+func (r *RNG) Bool() bool             { return r.Next()&1 == 1 }
+func (r *RNG) Chance(p int) bool      { return r.Intn(100) < p }
 func (r *RNG) Pick(l []string) string { return l[r.Intn(len(l))] }
-func (r *RNG) Range(lo, hi int) int { return lo + r.Intn(hi-lo+1) }
+func (r *RNG) Range(lo, hi int) int   { return lo + r.Intn(hi-lo+1) }
 
 // ---- protocol encoding ----
 
@@ -89,3 +90,5 @@ func guard(f func() string) (res string) {
 }
 
 func itoa(n int) string { return fmt.Sprintf("%d", n) }
+
+var bgCtx = context.Background()
